@@ -60,6 +60,13 @@ type Allocation struct {
 	// cache for response lost and client retry to implement 'stateless stack approach'
 	// See: https://datatracker.ietf.org/doc/html/rfc5766#section-6.2
 	responseCache atomic.Value // *allocationResponse
+
+	// lifetimeLock guards expiresAt (the deadline in force, set when the timer
+	// is armed and by Refresh) and expired (the lifetime timer has found the
+	// deadline exceeded and is removing the allocation).
+	lifetimeLock sync.Mutex
+	expiresAt    time.Time
+	expired      bool
 }
 
 // NewAllocation creates a new instance of NewAllocation.
@@ -346,10 +353,43 @@ func (a *Allocation) ListChannelBindings() []*ChannelBind {
 }
 
 // Refresh updates the allocations lifetime.
-func (a *Allocation) Refresh(lifetime time.Duration) {
+// It reports false when the lifetime has already run out: the lifetime timer
+// has fired and is removing the allocation, which a late Refresh must not be
+// told it has extended.
+func (a *Allocation) Refresh(lifetime time.Duration) bool {
+	a.lifetimeLock.Lock()
+	defer a.lifetimeLock.Unlock()
+
+	if a.expired {
+		return false
+	}
+	a.expiresAt = time.Now().Add(lifetime)
 	if !a.lifetimeTimer.Reset(lifetime) {
 		a.log.Errorf("Failed to reset allocation timer for %v", a.fiveTuple)
 	}
+
+	return true
+}
+
+// startLifetime arms the lifetime timer; onExpiry runs once the lifetime in
+// force (as moved by Refresh) has run out.
+func (a *Allocation) startLifetime(lifetime time.Duration, onExpiry func()) {
+	a.lifetimeLock.Lock()
+	defer a.lifetimeLock.Unlock()
+
+	a.expiresAt = time.Now().Add(lifetime)
+	a.lifetimeTimer = time.AfterFunc(lifetime, func() {
+		// A Refresh may have come in between the timer firing and this
+		// function running: the timer has been re-armed for the new deadline.
+		a.lifetimeLock.Lock()
+		a.expired = !time.Now().Before(a.expiresAt)
+		expired := a.expired
+		a.lifetimeLock.Unlock()
+
+		if expired {
+			onExpiry()
+		}
+	})
 }
 
 // AddressFamily returns the address family of the allocation (RFC 6156).
